@@ -151,6 +151,9 @@ class MachO(BinFormat):
         f.seek(0)
         while lcsize < self.header.sizeofcmds:
             cmd = struct_load_command(f, offset)
+            if cmd.cmdsize < len(cmd):
+                # (a null size would loop forever on the same command)
+                raise MachOError("bad load command size:\n%s" % cmd)
             data = f[offset : offset + cmd.cmdsize]
             offset += cmd.cmdsize
             lcsize += cmd.cmdsize
